@@ -153,7 +153,12 @@ fn ser_named_type(ty: &OwnedDataModelType, value: &Value, out: &mut Vec<u8>) -> 
         }
         OwnedDataModelType::F32 => {
             let val = value.as_f64().right()?;
-            let val = val as f32; // todo
+            let val = val as f32;
+            // a number too large for an f32 must not silently become an infinity,
+            // which from_slice_dyn could not even read back
+            if !val.is_finite() {
+                return Err(Error::SchemaMismatch);
+            }
             let val = val.to_le_bytes();
             out.extend_from_slice(&val);
         }
